@@ -55,6 +55,23 @@ CLAIMS = {
             "modifier, kind alternatives incl. empty, quantifier class); checks that the reader and writer quantifier tables are mutually "
             "inverse in both the equal and the kinded form, and that kind() literals re-resolve to the same maker.",
             "Not decided: equivalence of the re-parsed expression text for escaped glob/regex renderings; Unicode behaviour of \\s.", "§4 C08"),
+    "C09": ("Decides that both Markdown generators open and close with the same `\"`\".repeat(max_backtick_size(body)+c)` value (c>=1) around the "
+            "very string that was measured, that max_backtick_size starts >= 2 and takes the max over all lines, that no str::trim* is applied "
+            "to a generated body anywhere in src/generators, that matched expectations are re-emitted from original_string and unexpected lines "
+            "through escaped_expectation(trim_newlines(line)) with ` (no-eol)` exactly on !ends_with(\\n), and the writer/reader tables for "
+            "`$ `/`> ` and the `[code]` line.",
+            "Not decided: collisions between output text and test syntax (an output line `> x`, `[1]`, ending in ` (glob)`): whether rendering "
+            "and parsing are inverse there depends on the data, no escaping mechanism exists whose presence a rule could require.", "§4 C09"),
+    "C17": ("Decides that every free-text value interpolated by to_yaml_one_liner (environment keys/values, wait.path) passes a quoting function "
+            "(crate-local helper whose every result is the argument under a character-class guard or serde_json::to_string of it), that the keys "
+            "it writes equal the serde field names on the write and read side (and no field is unrendered), the enum name table, the "
+            "serialize_with/deserialize_with pairing with humantime and the `null` literal, and the single `{}` strip/re-wrap.",
+            "Not decided: humantime and serde_yaml round-trip laws themselves.", "§4 C17"),
+    "C19": ("Decides that no character count is used as a str byte offset in the renderers (index-unit dataflow through helper summaries), that "
+            "render_error and both DiffLine switches give every variant its own arm, that every unmatched expectation and every unexpected "
+            "line reaches the output (pretty) or the hunk buffers plus a final flush dominating Ok (diff), that a passing outcome writes "
+            "nothing, and that the structured renderers serialise the whole slice with `result` always present and distinct error kinds.",
+            "Not decided: the width arithmetic of Decorator, behaviour on non-UTF-8 lines in the diff renderer (returns Err).", "§4 C19"),
 }
 
 PENDING = "static rules for this property are designed (DESIGN.md §4) but not yet implemented in this revision"
